@@ -55,6 +55,7 @@ type vfFakeEnv struct {
 	plotStarted chan string
 	deletes     int32
 	autoOutcome string // "" = wait for the schedule; else outcome applied at once (free-running mode)
+	autoFast    bool   // automatic outcomes without any delay
 }
 
 func (d *vfFakeDB) Type() string { return typeMassDBV1 }
@@ -92,7 +93,14 @@ func (d *vfFakeDB) Plot() chan error {
 			select {
 			case <-stop:
 				oc = "abort"
-			case <-time.After(time.Duration(200) * time.Microsecond):
+			case <-func() <-chan time.Time {
+				if d.env.autoFast {
+					c := make(chan time.Time, 1)
+					c <- time.Time{}
+					return c
+				}
+				return time.After(200 * time.Microsecond)
+			}():
 				oc = auto
 			}
 		} else {
@@ -398,7 +406,11 @@ func vfGenC09(t *rapid.T) vfC09Case {
 		c.Plotted = append(c.Plotted, rapid.IntRange(0, 3).Draw(t, "plotted") == 0)
 	}
 	n := rapid.IntRange(1, 22).Draw(t, "nsteps")
-	kinds := []string{"plot", "plot", "mine", "mine", "stop", "stop", "remove", "delete", "bulk:plot", "bulk:mine", "bulk:stop", "bulk:remove", "advance", "advance", "advance", "advance", "complete", "complete", "abort", "stopKeeper", "startKeeper", "proofs"}
+	if rapid.IntRange(0, 9).Draw(t, "startFirst") < 7 {
+		// most schedules start the keeper first and let the plotter reach its waiting position
+		c.Steps = append(c.Steps, vfC09Step{K: "startKeeper"}, vfC09Step{K: "advance"})
+	}
+	kinds := []string{"plot", "plot", "mine", "mine", "stop", "stop", "remove", "delete", "bulk:plot", "bulk:mine", "bulk:stop", "bulk:remove", "advance", "advance", "advance", "advance", "advance", "advance", "advance", "advance", "advance", "advance", "complete", "complete", "complete", "abort", "stopKeeper", "startKeeper", "proofs", "proofs", "reconfig"}
 	for i := 0; i < n; i++ {
 		c.Steps = append(c.Steps, vfC09Step{K: rapid.SampledFrom(kinds).Draw(t, "kind"), S: rapid.IntRange(0, c.N-1).Draw(t, "space"), Flags: rapid.IntRange(1, 15).Draw(t, "flags")})
 	}
@@ -468,9 +480,12 @@ func vfC09Run(c vfC09Case, ctx *vlib.Ctx) *vlib.Failure {
 	uninstall := sch.install()
 	defer uninstall()
 	started := false
-	weak := map[string]bool{} // outstanding request that a keeper stop may have dropped
+	weak := map[string]bool{}                                    // outstanding request that a keeper stop may have dropped
+	stoppedPlotting := map[string]bool{}                         // Stop returned for a space in the plotting state and nothing was asked since
+	askedMine, askedPlot := map[string]bool{}, map[string]bool{} // several requests may be outstanding for one space: either may win
 	interleaved, heldRequest := false, false
 	lastRequester := ""
+	reqCount := map[string]int{} // plot/mine requests issued since the last stop/remove/delete of the space, minus those the plotter took up
 
 	observe := func(where string, changedBy string) *vlib.Failure {
 		// consistent snapshot: every transition happens under the write lock
@@ -503,24 +518,42 @@ func vfC09Run(c vfC09Case, ctx *vlib.Ctx) *vlib.Failure {
 			// transition relation
 			old, now := m.state[sid], ws.state
 			if old != now {
+				if os.Getenv("VERIF_TRACE") != "" {
+					fmt.Fprintf(os.Stderr, "TRACE %s: %s %v->%v intent=%q req=%d weak=%v by=%s\n", where, sid[:6], old, now, m.intent[sid], reqCount[sid], weak[sid], changedBy)
+				}
 				ok := false
 				switch {
 				case old == engine.Registered && now == engine.Plotting:
 					ok = m.intent[sid] != ""
+					if reqCount[sid] > 0 {
+						reqCount[sid]--
+					}
 					if !ok {
 						return vlib.Failf("stopped-space-plotted", "%s: %s went registered -> plotting although no plot/mine request is outstanding for it (a stopped space must not be plotted until asked again)", where, sid)
 					}
 				case old == engine.Plotting && now == engine.Ready:
-					ok = m.intent[sid] == "plot" || m.intent[sid] == ""
+					ok = m.intent[sid] == "plot" || m.intent[sid] == "" || askedPlot[sid]
 					m.plotted[sid] = true
+					if stoppedPlotting[sid] {
+						return vlib.Failf("stopped-plot-completed", "%s: Stop(%s) returned while the space was plotting, no request was issued afterwards, yet it went plotting -> ready (the stop did not return it to registered)", where, sid)
+					}
 				case old == engine.Plotting && now == engine.Mining:
-					ok = m.intent[sid] == "mine"
+					ok = m.intent[sid] == "mine" || askedMine[sid]
 					m.plotted[sid] = true
+					if stoppedPlotting[sid] {
+						return vlib.Failf("stopped-plot-completed", "%s: Stop(%s) returned while the space was plotting, yet it went plotting -> mining", where, sid)
+					}
 				case old == engine.Plotting && now == engine.Registered:
 					ok = true
-					m.intent[sid] = "" // stop or abort: the request is consumed, the space waits to be asked again
+					stoppedPlotting[sid] = false
+					askedMine[sid], askedPlot[sid] = false, false
+					if reqCount[sid] > 0 && m.intent[sid] != "" {
+						weak[sid] = true // abort or keeper stop: this request is consumed, but the space was asked more than once and the other requests may still be queued
+					} else {
+						m.intent[sid] = "" // stop or abort: the request is consumed, the space waits to be asked again
+					}
 				case old == engine.Ready && now == engine.Mining:
-					ok = m.intent[sid] == "mine"
+					ok = m.intent[sid] == "mine" || askedMine[sid]
 					if !ok {
 						return vlib.Failf("stopped-space-mined", "%s: %s went ready -> mining although no mine request is outstanding for it", where, sid)
 					}
@@ -581,6 +614,12 @@ func vfC09Run(c vfC09Case, ctx *vlib.Ctx) *vlib.Failure {
 		return nil
 	}
 
+	dbPlotted := func(sid string) bool {
+		env.mu.Lock()
+		d := env.dbs[sid]
+		env.mu.Unlock()
+		return d != nil && d.Ready()
+	}
 	apiAction := func(where, kind, sid string) *vlib.Failure {
 		st := m.state[sid]
 		err, blocked, _ := vfCall(func() error { return sk.ActOnWorkSpace(sid, vfActionOf(kind)) })
@@ -602,6 +641,13 @@ func vfC09Run(c vfC09Case, ctx *vlib.Ctx) *vlib.Failure {
 				m.intent[sid] = kind
 				weak[sid] = !started // requests issued while the keeper is stopped sit in the hand-off channel
 			}
+			stoppedPlotting[sid] = false
+			reqCount[sid]++
+			if kind == "mine" {
+				askedMine[sid] = true
+			} else {
+				askedPlot[sid] = true
+			}
 			if st == engine.Registered || st == engine.Plotting {
 				lastRequester = sid
 				if sch.plState == "gate" || sch.plState == "plot" {
@@ -613,6 +659,11 @@ func vfC09Run(c vfC09Case, ctx *vlib.Ctx) *vlib.Failure {
 				return vlib.Failf("action-refused", "%s: stop(%s) in state %v: %v", where, sid, st, err)
 			}
 			m.intent[sid] = ""
+			reqCount[sid] = 0
+			askedMine[sid], askedPlot[sid] = false, false
+			if st == engine.Plotting && !dbPlotted(sid) {
+				stoppedPlotting[sid] = true // (a plot that had already completed cannot be taken back: ready is fine then)
+			}
 		case "remove", "delete":
 			if st == engine.Plotting || st == engine.Mining {
 				if err == nil {
@@ -624,6 +675,7 @@ func vfC09Run(c vfC09Case, ctx *vlib.Ctx) *vlib.Failure {
 				return vlib.Failf("action-refused", "%s: %s(%s) in state %v: %v", where, kind, sid, st, err)
 			}
 			m.intent[sid] = ""
+			reqCount[sid] = 0
 			m.using[sid] = false
 			if kind == "delete" {
 				m.deleted[sid] = true
@@ -693,6 +745,28 @@ func vfC09Run(c vfC09Case, ctx *vlib.Ctx) *vlib.Failure {
 					}
 				}
 			}
+		case st.K == "reconfig":
+			// re-configuration with fewer spaces (only possible while the keeper is stopped): the others stay indexed,
+			// keep their state, but are no longer in use
+			if !started {
+				k := 1 + st.Flags%c.N
+				res, err := sk.ConfigureByBitLength(map[int]int{24: k}, false, false)
+				if err == nil {
+					sel := map[string]bool{}
+					for _, r := range res {
+						sel[r.SpaceID] = true
+					}
+					for _, s := range sids {
+						if !m.deleted[s] {
+							m.using[s] = sel[s] // requests issued earlier may still sit in the hand-off channel: kept as weak
+						}
+					}
+					for _, s := range sids {
+						weak[s] = true // the configuration resets the plotter queue
+					}
+					ctx.Label("reconfigured")
+				}
+			}
 		case st.K == "advance":
 			if started {
 				if f := sch.advance(where); f != nil {
@@ -757,13 +831,26 @@ func vfC09Run(c vfC09Case, ctx *vlib.Ctx) *vlib.Failure {
 						m.intent[t] = kind
 						weak[t] = !started
 					}
+					stoppedPlotting[t] = false
+					reqCount[t]++
+					if kind == "mine" {
+						askedMine[t] = true
+					} else {
+						askedPlot[t] = true
+					}
 				case "stop":
 					m.intent[t] = ""
+					reqCount[t] = 0
+					askedMine[t], askedPlot[t] = false, false
+					if stt == engine.Plotting && !dbPlotted(t) {
+						stoppedPlotting[t] = true
+					}
 				case "remove":
 					if stt == engine.Registered || stt == engine.Ready {
 						if e == nil {
 							m.using[t] = false
 							m.intent[t] = ""
+							reqCount[t] = 0
 						}
 					} else if e == nil {
 						return vlib.Failf("remove-accepted-while-"+stt.String(), "%s: %s", where, t)
